@@ -261,6 +261,36 @@ func runRecv(c RecvCase) *evid.Failure {
 			}
 			beyond++
 			settle()
+		case "closedstraddle":
+			// the window is closed (everything up to the advertised edge has been sent and
+			// that edge is final): a segment that repeats the last Gap bytes already
+			// received and goes on beyond the edge brings only data from outside the window
+			if st.Len <= 0 || !edgeIsFinal() {
+				continue
+			}
+			if f := scan(); f != nil {
+				return f
+			}
+			if maxEdge != sentEdge || edgeTainted {
+				continue
+			}
+			back := uint32(st.Gap%200 + 1)
+			if back > sentEdge {
+				back = sentEdge
+			}
+			if int(sentEdge)+st.Len+1500 > len(stream) {
+				continue
+			}
+			a := sentEdge - back
+			seg := append(append([]byte(nil), stream[a:sentEdge]...), bytes.Repeat([]byte{poisonByte}, st.Len)...)
+			logf("closed-window straddle at %d: %d old bytes + %d beyond the edge", a, back, st.Len)
+			p.Data(a, seg, codec.PSH)
+			if e := sentEdge + uint32(st.Len); e > poisonEnd {
+				poisonEnd = e
+			}
+			evid.Label("recv:straddle-into-closed-window")
+			beyond++
+			settle()
 		case "left":
 			if st.Len <= 0 || uint32(st.Gap+st.Len) > sentEdge {
 				continue
@@ -446,12 +476,24 @@ func genRecv(rt *rapid.T) RecvCase {
 	c.Env.RcvBuf = rapid.SampledFrom([]int{4096, 8192, 16384, 65536}).Draw(rt, "rcvbuf")
 	c.WS = rapid.SampledFrom([]int{-1, -1, 0, 3, 7}).Draw(rt, "ws")
 	c.TS = rapid.Bool().Draw(rt, "ts")
-	c.ISS = rapid.OneOf(rapid.Uint32(), rapid.Just(uint32(1<<32-3000)), rapid.Just(uint32(1<<31-3000))).Draw(rt, "iss")
+	// the peer's initial sequence number: anywhere, or below a wrap point by at most what will
+	// be sent plus the receive buffer (the data, or first the right edge of the window, crosses
+	// the point); always near a wrap point when hosted by C14's plan (C04_FORCE_WRAP=1)
+	below := uint32(rapid.OneOf(rapid.IntRange(0, 20000), rapid.IntRange(c.Env.RcvBuf+1, c.Env.RcvBuf+20000), rapid.IntRange(0, c.Env.RcvBuf+20000)).Draw(rt, "iss_below"))
+	if rapid.Bool().Draw(rt, "iss_32") {
+		below = 0 - below
+	} else {
+		below = 1<<31 - below
+	}
+	c.ISS = below
+	if !forceWrap && rapid.Bool().Draw(rt, "iss_anywhere") {
+		c.ISS = rapid.Uint32().Draw(rt, "iss")
+	}
 	c.Seed = rapid.Uint64().Draw(rt, "seed")
 	n := rapid.IntRange(1, 25).Draw(rt, "nsteps")
 	for i := 0; i < n; i++ {
 		var st RStep
-		st.Kind = rapid.SampledFrom([]string{"inorder", "inorder", "inorder", "inorder", "straddle", "beyond", "beyond", "left", "read", "readall", "wait", "setbuf"}).Draw(rt, "kind")
+		st.Kind = rapid.SampledFrom([]string{"inorder", "inorder", "inorder", "inorder", "straddle", "beyond", "beyond", "closedstraddle", "closedstraddle", "left", "read", "readall", "wait", "setbuf"}).Draw(rt, "kind")
 		st.Len = rapid.OneOf(rapid.IntRange(1, 10), rapid.IntRange(1, 1400)).Draw(rt, "len")
 		st.Gap = rapid.OneOf(rapid.Just(0), rapid.IntRange(0, 5), rapid.IntRange(0, 70000)).Draw(rt, "gap")
 		if st.Kind == "setbuf" {
